@@ -20,5 +20,5 @@ pub fn run(ctx: &Ctx, replay: Option<&str>) -> i32 {
          crash, completion. Non-trivial = >=2 workers and >=100 iterations.",
     );
     ctx.assume("the 'being scanned' flag hook named by the property is not implemented: only the observable consequences of a thread running while its state is inspected are checked; the OS scheduler chooses the interleavings (not owned by the harness)");
-    threads::run(ctx, replay, "c15", true, 60, 3000)
+    threads::run(ctx, replay, "c15", true, 48, 3000)
 }
